@@ -51,6 +51,9 @@ def _deltas(rng, L):
     if L > 0:
         base += [L - 1, L - 0.5, L, L + 0.5, L + 1, 2 * L, L / 2.0]
     base += [100000.0]
+    # whole days plus less than the lifetime (age arithmetic that wraps or truncates)
+    base += [86400.0 * rng.choice([1, 2, 7]) + rng.choice([0.0, 1.0, L / 2.0, max(0.0, L - 1.0)]),
+             3600.0 * rng.choice([1, 24, 25]), 65536.0 + rng.choice([0.0, L / 2.0])]
     return max(0.0, rng.choice(base))
 
 
